@@ -139,7 +139,9 @@ def run_case(desc):
                 if not np.array_equal(s1, s2, equal_nan=True):
                     add("sample_y-not-reproducible", "two calls with random_state=5 differ")
                 s3 = np.asarray(reg.sample_y(Qs, n_samples=3, random_state=6))
-                if s1.shape == s3.shape and np.array_equal(s1, s3):
+                # a spread below the rounding unit of the mean legitimately yields samples equal to the mean
+                wide = (sd[ok_rows] > 1e-9 * (1.0 + np.abs(mu[ok_rows]))).any()
+                if wide and s1.shape == s3.shape and np.array_equal(s1, s3):
                     add("sample_y-ignores-random_state", "random_state=5 and 6 give identical samples")
         # ---- documented fall-back of the wrappers
         if name.startswith("sk"):
